@@ -614,3 +614,55 @@ def check_closed_listen(ctx, rule_c="T-CLOSED", rule_l="T-LISTEN"):
         probs.append("the cases RST / ACK / SYN are not all distinguished (%s)" % sorted(seen))
     (ctx.bad if probs else ctx.ok)(rule_l, rule_l + ":segment_arrives_listen", b.span, "; ".join(sorted(set(probs))[:3]) if probs else
         "RST ignored; ACK -> <SEQ=SEG.ACK><RST>; SYN -> SYN-RECEIVED with IRS=SEG.SEQ, RCV.NXT=SEG.SEQ+1, SND.UNA=ISS, SND.NXT=ISS+1 and <SEQ=ISS><ACK=RCV.NXT><SYN,ACK>; anything else dropped")
+
+
+def check_close(ctx, rule="T-FIN"):
+    """Tcb::close as a formula: whenever the state moves towards FIN-WAIT-1 / LAST-ACK, a segment <SEQ=SND.NXT><ACK=RCV.NXT>
+    <CTL=FIN,ACK> is queued and SND.NXT advances by one (the FIN occupies one sequence number, which is what lets
+    is_fin_acked / the peer's RCV.NXT agree with it)."""
+    prog = ctx.prog()
+    b = prog.method("Tcb", "close")
+    try:
+        t, _ = S.extract(prog, b, effects=True)
+    except S.Unsupported as e:
+        ctx.require(False, "%s: cannot extract Tcb::close (%s)" % (rule, e))
+    SELF = S.params_of(b)[0]
+    probs = []
+    n = 0
+
+    def leaves(x):
+        if x[0] == "ite":
+            yield from leaves(x[2]); yield from leaves(x[3])
+        elif x[0] == "switch":
+            for _v, y in x[2]:
+                yield from leaves(y)
+            yield from leaves(x[3])
+        else:
+            yield x
+    for leaf in leaves(t):
+        if leaf[0] != "state":
+            continue
+        st = dict(leaf[2])
+        if SELF not in st:
+            continue
+        root, fs = S.with_fields(st[SELF])
+        new_state = fs.get("state")
+        if new_state is None:
+            continue
+        n += 1
+        sname = new_state[2] if new_state[0] == "variant" else "?"
+        enq = S.atoms(st[SELF], lambda x: x[0] == "upd" and x[1].rsplit("::", 1)[-1] == "enqueue")
+        ch = _builder_chain(enq[0][3][1]) if enq else None
+        OLD_NXT = ("field", ("field", SELF, "snd"), "nxt")
+        if ch is None or not {"fin", "ack"} <= ch["flags"] or ch["new"][2] != OLD_NXT or ch.get("ack") != ("field", ("field", SELF, "rcv"), "nxt"):
+            probs.append("close() -> %s does not queue <SEQ=SND.NXT><ACK=RCV.NXT><CTL=FIN,ACK>" % sname)
+        snd = fs.get("snd")
+        nx = None
+        if snd is not None:
+            _r, sf = S.with_fields(snd)
+            nx = sf.get("nxt")
+        if nx is None or S.lin(_resolve(nx)) != S.lin_shift(S.lin(OLD_NXT), 1):
+            probs.append("close() -> %s does not advance SND.NXT by one for the FIN (SND.NXT' = %s)" % (sname, S.term_str(nx) if nx else "unchanged"))
+    ctx.require(n >= 2, "%s: state-changing arms of Tcb::close not found" % rule)
+    (ctx.bad if probs else ctx.ok)(rule, rule + ":Tcb::close", b.span, "; ".join(sorted(set(probs))[:3]) if probs else
+        "every closing transition queues <SEQ=SND.NXT><ACK=RCV.NXT><FIN,ACK> and advances SND.NXT by one (%d arms)" % n)
